@@ -37,6 +37,8 @@ impl<'a, T: LangInterpreter> WordToDigitParser<'a, T> {
     }
 
     pub fn push(&mut self, word: &str) -> Result<(), Error> {
+        #[cfg(feature = "verif-hooks")]
+        crate::verif::yield_point(2);
         let status = if self.is_dec {
             self.lang.apply_decimal(word, &mut self.dec_part)
         } else {
@@ -310,6 +312,8 @@ impl NumTracker {
             start, end, text, ..
         } in self.matches.into_iter().rev()
         {
+            #[cfg(feature = "verif-hooks")]
+            crate::verif::yield_point(5);
             let repr: T = Replace::replace(tokens.drain(start..end), text);
             tokens.insert(start, repr);
         }
